@@ -31,6 +31,12 @@ func initProps() {
 			"non-trivial = at least 3 operations, or two clients with overlapping operation windows, or a clock jump; distinct = distinct interleaving signature " +
 			"(hash of every choice, context switch and delivered event of the run) among non-trivial runs",
 		scenarios: []fixedScenario{
+			{name: "pairenum", params: "prefix=1,shards=64", thorParams: "prefix=2,shards=64", runs: func(tier string) int64 {
+				if tier == "thorough" {
+					return 64
+				}
+				return 16
+			}},
 			{name: "seqenum", params: "depth=3,shards=16", thorParams: "depth=5,shards=64", runs: func(tier string) int64 {
 				if tier == "thorough" {
 					return 64
